@@ -790,21 +790,38 @@ def plan(ctx):
                 for r1, r2 in ((None, "c1"), ("c1", None), (None, None)):
                     pairs.append((state, [(k1, r1), (k2, r2)], "A"))
     rnd.shuffle(pairs)
-    scen += pairs[: (100 if not thorough else 3000)]
+    scen += pairs[: (100 if not thorough else 2000)]
     return scen
 
 
 def run_impl(ctx, scen):
-    """the implementation runs in <= 8 worker processes (each with its own process-wide DuckDB session)"""
-    from concurrent.futures import ProcessPoolExecutor
+    """the implementation runs in <= 8 worker processes (each with its own process-wide DuckDB session); a wall-clock
+    deadline keeps the tier inside its budget -- scenarios not started by then are dropped and COUNTED"""
+    from concurrent.futures import ProcessPoolExecutor, as_completed
     import multiprocessing as mp
     nproc = 8
-    chunks = [scen[i::nproc * 4] for i in range(nproc * 4)]
+    nchunk = nproc * (4 if ctx.tier == "quick" else 40)
+    chunks = [c for c in (scen[i::nchunk] for i in range(nchunk)) if c]
     thorough = ctx.tier == "thorough"
-    results = []
-    with ProcessPoolExecutor(max_workers=nproc, mp_context=mp.get_context("fork")) as ex:
-        for part in ex.map(_worker, [(c, thorough) for c in chunks if c]):
-            results.extend(part)
+    deadline = time.time() + (150 if ctx.tier == "quick" else 780)
+    results, dropped, cancelled = [], 0, False
+    ex = ProcessPoolExecutor(max_workers=nproc, mp_context=mp.get_context("fork"))
+    try:
+        futs = {ex.submit(_worker, (c, thorough)): c for c in chunks}
+        for f in as_completed(futs):
+            if f.cancelled():
+                continue
+            results.extend(f.result())
+            if time.time() > deadline and not cancelled:
+                cancelled = True
+                for g in futs:
+                    if g.cancel():
+                        dropped += len(futs[g])
+    finally:
+        ex.shutdown(wait=True, cancel_futures=True)
+    if dropped:
+        ctx.log(f"deadline reached: {dropped} scenarios were not run")
+    ctx.coverage["scenarios_dropped_by_deadline"] = dropped
     return results
 
 
